@@ -5,6 +5,7 @@ import ast
 
 from sa.callgraph import STRONG_KINDS
 from sa.dataflow import ReachingDefs, depends_on
+from sa.dom import view, mentions
 from sa.model import AnalysisError, FunctionInfo, call_name, loc, norm, walk_no_nested
 
 LEVEL_TEXT = ("Static structural proof of necessary conditions: (R4.1) in the function that produces the nested sorted "
